@@ -98,3 +98,23 @@ def set_order(labels):
 
 def sorted_set(labels):
     return [x for x in sorted(set(labels))]
+
+
+def or_falsy_literal(ts, start=None):
+    start = start or 0
+    return start + ts.first
+
+
+def repeat_loop(n):
+    out = []
+    for i in range(n):
+        out.append(0)
+    return out
+
+
+def set_sum(labels):
+    return sum(x for x in set(labels))
+
+
+def _fill_buffer(out, i):
+    out[i] = 0
